@@ -485,7 +485,19 @@ def run_case(p, mode, frame, val, chain):
         })
 
 
+_TRY_CACHE: dict = {}
+
+
 def _try(mode, frame, val, chain):
+    key = (mode, frame.name, val, tuple(c[1] for c in chain))
+    if key not in _TRY_CACHE:
+        if len(_TRY_CACHE) > 50000:
+            _TRY_CACHE.clear()
+        _TRY_CACHE[key] = _try_uncached(mode, frame, val, chain)
+    return _TRY_CACHE[key]
+
+
+def _try_uncached(mode, frame, val, chain):
     expr = val
     for c in chain:
         expr = apply(expr, c)
@@ -503,7 +515,7 @@ def _try(mode, frame, val, chain):
     return None
 
 
-MARKUP_VAL = "x|e"  # canonical Markup-valued expression used to name "carrier applied to a Markup value"
+MARKUP_VAL = "xn|e"  # canonical Markup-valued expression used to name "carrier applied to a Markup value"
 
 
 def minimise(mode, frame, val, chain, kind):
@@ -539,6 +551,9 @@ def minimise(mode, frame, val, chain, kind):
         if r is not None:
             names = label or "+".join(c[0] for c in ch) or "-"
             sig = "C15/leak/%s/%s" % (fr.name, names)
+            if not MARKER.search(r[1]):
+                # no intact tainted sequence: the raw metacharacters come from the repr of untainted structure
+                sig += "/structure"
             m = mode
             if mode != "static":
                 r2 = _try("static", fr, v, ch)
